@@ -320,6 +320,30 @@ def run_case(case, res):
                     b = attempt(lambda: t.format(repr="<{node.data}>", style=None if sname in ("default", "list") or sname.startswith("custom") else sname).split("\n"))
                     if a != b:
                         bad.append(f"format_iter != format for style {sname}")
+                    if sname != "list" and not sname.startswith("custom"):
+                        st = None if sname == "default" else sname
+                        # the same for every title setting; the system root rendered without itself is the title-less tree
+                        for tv in (False, "TT", True):
+                            a = attempt(lambda: list(t.format_iter(repr="<{node.data}>", style=st, title=tv)))
+                            b = attempt(lambda: t.format(repr="<{node.data}>", style=st, title=tv).split("\n") if t.count or tv else [])
+                            if a != b and not (a == [] and b == [""]):
+                                bad.append(f"format_iter(title={tv!r}) = {a!r} but format(title={tv!r}) = {b!r} (style {sname})")
+                        a = attempt(lambda: t.system_root.format(repr="<{node.data}>", style=st, add_self=False))
+                        b = attempt(lambda: t.format(repr="<{node.data}>", style=st, title=False))
+                        if a != b:
+                            bad.append(f"system_root.format(add_self=False) = {a!r}, tree.format(title=False) = {b!r} (style {sname})")
+                        # a table entry passed by value (as a tuple) renders like the named style
+                        if sname != "default":
+                            a = attempt(lambda: t.format(repr="<{node.data}>", style=tuple(CONNECTORS[sname])))
+                            b = attempt(lambda: t.format(repr="<{node.data}>", style=sname))
+                            if a != b:
+                                bad.append(f"style given as the tuple of table entry {sname!r} renders {a!r}, the named style {b!r}")
+                    if sname == "list":
+                        # an explicit title is honoured by the list style as well
+                        a = attempt(lambda: t.format(repr="<{node.data}>", style="list", title="TT").split("\n"))
+                        b = attempt(lambda: ["TT"] + (t.format(repr="<{node.data}>", style="list").split("\n") if t.count else []))
+                        if a != b:
+                            bad.append(f"format(style='list', title='TT') = {a!r}, expected {b!r}")
             # default repr
             if start == -1 and rendered and not eq:
                 got = attempt(lambda: t.format(title=False, style="list"))
